@@ -315,6 +315,9 @@ def run_case(case):
     tags.append("outcome:" + final_m[1])
     tags += sorted(model.census - set(t for t in model.census if t.startswith("exec:read:")))
     tags += ["reader:" + t[10:] for t in model.census if t.startswith("exec:read:")]
+    ncalls = sum(1 for t in mtrace_c if t[0] == "call")
+    if ncalls:
+        tags.append("host-calls:%d" % min(ncalls, 2))
     npauses = sum(1 for t in mtrace0 if t[0] == "resume")
     if npauses:
         tags.append("pauses:%d" % min(npauses, 3))
